@@ -764,7 +764,7 @@ Qed.
 
 Lemma wn_sym3 : sym3 wn.
 Proof.
-  repeat split; simpl; intros; unfold wn_grad, wn_build; now rewrite ?delta_sym.
+  repeat split; simpl; intros; unfold wn_grad, wn_build; try reflexivity; now rewrite (delta_sym i j).
 Qed.
 
 Lemma hn_sym3 : forall n, sym3 (hn n).
@@ -808,15 +808,27 @@ Proof.
   now rewrite cp_a_sym, (cp_b_sym cw xu xv), IH.
 Qed.
 
-Lemma cp_wgrad_sym : forall cps last Kv Kv' m q xi xj, Kv = Kv' ->
-  cp_wgrad last Kv cps m q xi xj = cp_wgrad last Kv' cps m q xj xi.
+Lemma cp_wgrad_0 : forall last K0 K1 Kr cw cr q xi xj,
+  cp_wgrad last (K0 :: K1 :: Kr) (cw :: cr) 0 q xi xj
+  = K0 * last * cp_da q cw xi xj
+    + K1 * (match cr with [] => 1 | cw' :: _ => cp_a cw' xi xj end) * cp_db q cw xi xj.
+Proof. reflexivity. Qed.
+
+Lemma cp_wgrad_S : forall last K0 K1 Kr cw cr m q xi xj,
+  cp_wgrad last (K0 :: K1 :: Kr) (cw :: cr) (S m) q xi xj
+  = cp_wgrad (cp_b cw xi xj) (K1 :: Kr) cr m q xi xj.
+Proof. reflexivity. Qed.
+
+Lemma cp_wgrad_sym : forall cps last Kv m q xi xj,
+  cp_wgrad last Kv cps m q xi xj = cp_wgrad last Kv cps m q xj xi.
 Proof.
-  induction cps as [|cw cr IH]; intros last Kv Kv' m q xi xj <-.
+  induction cps as [|cw cr IH]; intros last Kv m q xi xj.
   - destruct Kv as [|K0 [|K1 Kr]]; reflexivity.
-  - destruct Kv as [|K0 [|K1 Kr]]; try reflexivity. cbn [cp_wgrad].
+  - destruct Kv as [|K0 [|K1 Kr]]; try reflexivity.
     destruct m as [|m].
-    + rewrite cp_da_sym, cp_db_sym. destruct cr as [|cw' ?]; [reflexivity|]. now rewrite cp_a_sym.
-    + rewrite (cp_b_sym cw xi xj). now apply IH.
+    + rewrite !cp_wgrad_0. rewrite cp_da_sym, cp_db_sym.
+      destruct cr as [|cw' ?]; [reflexivity|]. now rewrite cp_a_sym.
+    + rewrite !cp_wgrad_S. rewrite (cp_b_sym cw xi xj). apply IH.
 Qed.
 
 Lemma cp_wgrad_pinned_sym : forall cps Kv m q xi xj,
@@ -824,8 +836,11 @@ Lemma cp_wgrad_pinned_sym : forall cps Kv m q xi xj,
 Proof.
   induction cps as [|cw cr IH]; intros Kv m q xi xj.
   - destruct Kv as [|K0 [|K1 Kr]]; reflexivity.
-  - destruct Kv as [|K0 [|K1 Kr]]; try reflexivity. cbn [cp_wgrad_pinned].
-    destruct m as [|m]; [now rewrite cp_da_sym, cp_db_sym|apply IH].
+  - destruct Kv as [|K0 [|K1 Kr]]; try reflexivity.
+    destruct m as [|m].
+    + change (K0 * cp_da q cw xi xj + K1 * cp_db q cw xi xj = K0 * cp_da q cw xj xi + K1 * cp_db q cw xj xi).
+      now rewrite cp_da_sym, cp_db_sym.
+    + change (cp_wgrad_pinned (K1 :: Kr) cr m q xi xj = cp_wgrad_pinned (K1 :: Kr) cr m q xj xi). apply IH.
 Qed.
 
 Lemma cp_kgrad_sym : forall ks sls cf xs th p i j,
@@ -852,7 +867,7 @@ Proof.
   - unfold cp_grad, cp_grad_with. cbv zeta.
     destruct (Nat.ltb p (nps ks)).
     + unfold coeffs. rewrite coeffs_from_sym. apply cp_kgrad_sym. now apply Forall_forall.
-    + apply cp_wgrad_sym. apply (He (fun k t => kbuild k xs t)). intros k Hk t. now apply (H k Hk).
+    + rewrite cp_wgrad_sym. f_equal. apply (He (fun k t => kbuild k xs t)). intros k Hk t. now apply (H k Hk).
 Qed.
 
 (* ------------------------------------------------------------------ *)
